@@ -162,6 +162,38 @@ func R9Pivot(c *Ctx) {
 					}
 				}
 			})
+			if !ok {
+				// a splice helper: the owner is its parameter, and the pairing is the business of every call site —
+				// inside LinkRemove, or next to a LinkRemove call for the agent passed as owner
+				if prm := ParamOf(ls.owner); prm != nil && prm.Parent() == ls.fn {
+					idx := -1
+					for i, q := range ls.fn.Params {
+						if q == prm {
+							idx = i
+						}
+					}
+					ok = idx >= 0 && c.EveryCallSite(ls.fn, func(site ssa.CallInstruction) bool {
+						caller := site.Parent()
+						if FuncShort(caller) == "(*server.Teamserver).LinkRemove" {
+							return true
+						}
+						if idx >= len(site.Common().Args) {
+							return false
+						}
+						owner := site.Common().Args[idx]
+						paired := false
+						EachCall(caller, func(call ssa.CallInstruction) {
+							if strings.HasSuffix(CalleeName(call), ".LinkRemove") {
+								args := CallArgs(call)
+								if len(args) == 3 && sameAgent(args[0], owner) {
+									paired = true
+								}
+							}
+						})
+						return paired
+					})
+				}
+			}
 			if ok {
 				c.R.Ok(rule, fname, construct, c.pos(ls.st.Pos()), "accompanied by LinkRemove for the same parent (table row and child's Parent updated)", true)
 			} else {
